@@ -77,7 +77,8 @@ Definition name_eqb (a b : string) : bool := bool_decide (a = b).
 Inductive err :=
 | EOk | EInvalidName | EDupInRequest | ENameExists | ECalcIndex | ENoNode | ENameRequired
 | ECounterOverflow | ETsInvalid | ETsExists | EIndexNotFound | ENotAnIndex | EIndexHasDependants
-| EInternal | ELenMismatch | ENotFound | EFsRename | EUnreachable.
+| EInternal | ELenMismatch | ENotFound | EFsRename | EUnreachable
+| EFault.   (* an injected storage error (the engine could not persist a channel's meta file) *)
 Global Instance err_eq_dec : EqDecision err.
 Proof. solve_decision. Defined.
 Definition is_ok (e : err) : bool := bool_decide (e = EOk).
@@ -667,7 +668,18 @@ Inductive op :=
 | Delete (gw : N) (keys : list N)
 | DeleteByName (gw : N) (names : list string)
 | Restart (node : N)                    (* channel service reopened over the same stores *)
-| Bump (node : N) (free : bool) (delta : N).  (* counter.add(delta) on a node's leased/free counter *)
+| Bump (node : N) (free : bool) (delta : N)   (* counter.add(delta) on a node's leased/free counter *)
+(* two creates issued in two overlapping transactions through one node: A is assigned its keys
+   first, B second, B's transaction commits first, then A's *)
+| CreatePair (gw : N) (a b : list chan)
+(* the request runs in a transaction (as every API request does) while node n's engine fails the
+   next time it persists a channel's meta file *)
+| FaultedCreate (n gw : N) (chs : list chan)
+| FaultedRename (n gw : N) (keys : list N) (names : list string).
+
+(* every entry of the request is leased to n *)
+Definition all_leased_to (n gw : N) (chs : list chan) : bool :=
+  match chs with [] => false | _ => forallb (fun c => negb (is_calc c) && ((if c_lease c =? 0 then gw else c_lease c) =? n)) chs end.
 
 Definition step (fixed validate : bool) (s : st) (o : op) : st * res :=
   match o with
@@ -689,6 +701,28 @@ Definition step (fixed validate : bool) (s : st) (o : op) : st * res :=
         | Some v => (St (s_tab s) (s_eng s) (<[n := v]> (s_ctr s)) (s_free s) (s_amb s), (EOk, []))
         | None => (s, (ECounterOverflow, []))
         end
+  | CreatePair gw a b =>
+      (* counters are written when the keys are reserved, not when the transaction commits, so
+         the two requests behave like A then B; anything but two successes is not compared *)
+      let '(s1, (e1, o1)) := create fixed validate gw s a (COpts false false) in
+      if negb (is_ok e1) then (upd_amb s1 true, (e1, [])) else
+      let '(s2, (e2, o2)) := create fixed validate gw s1 b (COpts false false) in
+      if negb (is_ok e2) then (upd_amb s2 true, (e2, [])) else (s2, (EOk, o1 ++ o2))
+  | FaultedCreate n gw chs =>
+      (* all entries leased to n, the request would succeed: n's engine fails on the first channel,
+         the handler / request transaction is abandoned: nothing is created anywhere; the keys
+         reserved for the request stay reserved *)
+      let '(s', (e, _)) := create fixed validate gw s chs (COpts false false) in
+      if is_ok e && all_leased_to n gw chs && is_node s n
+      then (St (s_tab s) (s_eng s) (s_ctr s') (s_free s') (s_amb s'), (EFault, []))
+      else (upd_amb s' true, (e, []))
+  | FaultedRename n gw keys names =>
+      (* all keys leased to n, the request would succeed: n's engine fails on the first channel and
+         keeps the old name, the metadata update is abandoned: nothing changes *)
+      let '(s', (e, _)) := rename_keys fixed validate gw s keys names in
+      if is_ok e && match keys with [] => false | _ => forallb (fun k => leaseholder k =? n) keys end
+      then (upd_amb s (s_amb s'), (EFault, []))
+      else (upd_amb s' true, (e, []))
   end.
 
 Fixpoint run (fixed validate : bool) (s : st) (ops : list op) : st :=
